@@ -1,4 +1,4 @@
-// Directory::validate on a 4-entry directory whose tree links are ARBITRARY
+// Directory::validate on a 3-entry directory (root + two) whose tree links are ARBITRARY
 // (every left / right / child field any u32, colours and the non-root object
 // types arbitrary): what `open` relies on to keep lookups and iterators from
 // indexing out of range or walking in circles.  C05 (no panic, terminates:
@@ -12,7 +12,7 @@ use crate::internal::alloc::vacc as aacc;
 use crate::internal::directory::vacc as dacc;
 use crate::internal::{DirEntry, Sectors, Validation, Version};
 
-const N: usize = 4;
+const N: usize = 3;
 
 fn okf<T>(r: std::io::Result<T>) -> bool {
     match r {
@@ -130,13 +130,11 @@ fn dir_validate_total() {
         // lookups on an accepted directory terminate (unwinding assertion), do not panic, and never return an unreachable slot
         let ra = dir.stream_id_for_name_chain(&["a"]);
         let rb = dir.stream_id_for_name_chain(&["B"]);
-        let rc = dir.stream_id_for_name_chain(&["c"]);
         let mut ok = true;
         if let Some(x) = ra { ok &= x == 1 && reach[1]; }
         if let Some(x) = rb { ok &= x == 2 && reach[2]; }
-        if let Some(x) = rc { ok &= x == 3 && reach[3]; }
         assert!(ok, "C05/C04: a lookup on an accepted directory returned a slot that is not the named, reachable entry");
-        kani::cover!(ra.is_some() && rb.is_some() && rc.is_some(), "a full three-entry tree");
+        kani::cover!(ra.is_some() && rb.is_some(), "a full two-entry tree");
     }
     kani::cover!(p_ok && !s_ok, "tolerated: adjacent reds");
     kani::cover!(!p_ok, "rejected");
